@@ -33,10 +33,13 @@ def define(pid, propfile, insts, drivers, text, rule, assumptions=(), diag=None)
                     if not ok and diag:
                         out = ck.diagnose(diag)
                         ck.notes.append("table diagnosis: " + out[-1500:])
-                for drv, args in drivers:
-                    m = ck.run_driver(drv, args)
-                    if m is not None and m.get("n_cases", 0):
-                        ck.compare(m)
+                # thorough: the enlarged corpus, four times with different seeds (boundary corpora are deterministic and repeat)
+                rounds = 4 if ck.tier == "thorough" else 1
+                for rnd in range(rounds):
+                    for drv, args in drivers:
+                        m = ck.run_driver(drv, args, seed=ck.seed if rnd == 0 else ck.seed * 1000 + 7 * rnd)
+                        if m is not None and m.get("n_cases", 0):
+                            ck.compare(m, label=("round %d" % rnd) if rounds > 1 else None)
         return ck.finish(text, rule)
     run.__name__ = pid
     REGISTRY[pid] = run
